@@ -340,7 +340,11 @@ where
         I: IntoIterator<Item = &'a SpannedExpr<'ast, Symbol>>,
     {
         let (_, expr) = self.select_spanned(iter, |e| e.span);
-        self.visit_expr(expr.unwrap());
+        match expr {
+            Some(expr) => self.visit_expr(expr),
+            // Nothing to select from (an empty array literal `[]`)
+            None => self.found = MatchState::Empty,
+        }
     }
 
     fn visit_any<I>(&mut self, iter: I)
@@ -490,7 +494,11 @@ where
             }
             Pattern::Tuple { ref elems, .. } => {
                 let (_, field) = self.select_spanned(&**elems, |elem| elem.span);
-                self.visit_pattern(field.unwrap());
+                match field {
+                    Some(field) => self.visit_pattern(field),
+                    // The unit pattern `()` has no elements
+                    None => self.found = MatchState::Empty,
+                }
             }
             Pattern::Ident(_) | Pattern::Literal(_) | Pattern::Error => {
                 self.found = if current.span.containment(self.pos) == Ordering::Equal {
